@@ -467,6 +467,34 @@ def classify_so(data):
     return ('ok', dig, comp)
 
 
+def resolve_import(paths, name):
+    """The stub's model of CPython's path-based finder for a top-level name, as a pure function of the
+    directory contents: ('ok', file, digest, complete) | ('importerror', file, msg) | ('crash', file, msg, nbytes)
+    | ('namespace', portions) | ('notfound',)."""
+    portions = []
+    for d in paths:
+        f = os.path.join(d, name + EXT)
+        dd = os.path.join(d, name)
+        # a directory called <name> without __init__.py is a namespace-package portion; a module FILE of that
+        # name in the same directory wins; if no path entry has a real module the import SUCCEEDS with an
+        # empty namespace package
+        if os.path.isdir(dd) and not os.path.exists(os.path.join(dd, '__init__.py')):
+            portions.append(dd)
+        if not os.path.isfile(f):
+            continue
+        with open(f, 'rb') as fh:
+            data = fh.read()
+        r = classify_so(data)
+        if r[0] == 'importerror':
+            return ('importerror', f, r[1])
+        if r[0] == 'crash':
+            return ('crash', f, r[1], len(data))
+        return ('ok', f, r[1], r[2])
+    if portions:
+        return ('namespace', portions)
+    return ('notfound',)
+
+
 class StubBuildExt:
     def __init__(self, proc):
         self._p = proc
@@ -615,22 +643,22 @@ class ImportlibFacade:
         if name in p.sys.modules:
             return p.sys.modules[name]
         p.actor.yield_point('import:' + name)
-        for d in p.sys.path:
-            f = os.path.join(d, name + EXT)
-            if not os.path.exists(f):
-                continue
-            with open(f, 'rb') as fh:
-                data = fh.read()
-            r = classify_so(data)
-            if r[0] == 'importerror':
-                p.world.ctx.count('probe.import.importerror-on-partial-so')
-                raise ImportError('%s: %s' % (f, r[1]))
-            if r[0] == 'crash':
-                p.world.ctx.count('probe.import.hit-half-written-so')
-                raise InterpreterCrash('import %s: %s (file has %d bytes)' % (name, r[1], len(data)))
-            m = types.SimpleNamespace(__name__=name, __file__=f, __digest__=r[1])
-            if r[2]:
-                m.CustomAssembler = type('CustomAssembler', (), {'__digest__': r[1]})
+        r = resolve_import(p.sys.path, name)
+        if r[0] == 'importerror':
+            p.world.ctx.count('probe.import.importerror-on-partial-so')
+            raise ImportError('%s: %s' % (r[1], r[2]))
+        if r[0] == 'crash':
+            p.world.ctx.count('probe.import.hit-half-written-so')
+            raise InterpreterCrash('import %s: %s (file has %d bytes)' % (name, r[2], r[3]))
+        if r[0] == 'ok':
+            m = types.SimpleNamespace(__name__=name, __file__=r[1], __digest__=r[2])
+            if r[3]:
+                m.CustomAssembler = type('CustomAssembler', (), {'__digest__': r[2]})
+            p.sys.modules[name] = m
+            return m
+        if r[0] == 'namespace':
+            p.world.ctx.count('probe.import.namespace-package')
+            m = types.SimpleNamespace(__name__=name, __path__=list(r[1]), __file__=None, __digest__=None)
             p.sys.modules[name] = m
             return m
         raise ModuleNotFoundError("No module named '%s'" % name)
